@@ -7,14 +7,14 @@ CONSTANTS
   Variants = {"asis", "fixed"}
   Cuts = FALSE
   Kinds = {"T2", "T1S", "T1D", "T512"}
-  Sizes = {3, 4, 5}
+  Sizes = {3, 5}
   Pads = {0, 1, 2, 3}
   Props = {0, 77}
-  CtlFroms = {2, 3, 4, 5, 6, 7, 8, 9, 10, 11, 12, 13, 14, 15, 16, 17, 18, 19, 20, 21, 22, 23, 24, 25, 26, 27, 28, 29, 30, 31, 32, 33, 34, 35, 36, 37, 38, 39}
-  CtlSizes = {1, 2, 3, 5}
+  CtlFroms = {2, 3, 4, 5, 6, 7, 8, 9, 11, 13, 16, 19, 22, 26, 30, 34, 38}
+  CtlSizes = {1, 2, 3}
   CtlTypes = {1, 2}
   TwoCtl = TRUE
-  OldLens = {0, 1, 5, 9}
+  OldLens = {1, 5}
 INVARIANT FxConfined
 INVARIANT ConfinedButFormat
 INVARIANT FxUnitsInArea
